@@ -49,6 +49,11 @@ def main():
         mod = importlib.import_module(modname)
         if hasattr(mod, "worker_init"):
             mod.worker_init(lane)
+        try:
+            from harness import reach
+            reach.start(getattr(mod, "ID", ""))
+        except Exception:
+            reach = None
     except Exception:
         boot_err = traceback.format_exc()
     for line in sys.stdin:
@@ -72,6 +77,11 @@ def main():
                 res = {"idx": idx, "status": "exception",
                        "result": {"type": type(e).__name__, "msg": str(e)[:2000], "traceback": traceback.format_exc()[-6000:]}}
         res["cpu"] = time.time() - t0
+        try:
+            from harness import reach as _r
+            res["reach"] = _r.drain()
+        except Exception:
+            pass
         out.write(json.dumps(res) + "\n")
         out.flush()
 
